@@ -600,6 +600,9 @@ func (r *rewriter) stmt(s ast.Stmt) []ast.Stmt {
 			pre = append(pre, r.yieldStmt(r.newSite("pkgvar", s.Pos(), true, acc, mut)))
 		} else if r.isHeapWrite(s) {
 			pre = append(pre, r.yieldStmt(r.newSite("heapw", s.Pos(), true, nil, false)))
+		} else if r.usesAtomic(hdr) {
+			// an atomic operation is a synchronisation point: other tasks may run between two of them
+			pre = append(pre, r.yieldStmt(r.newSite("atomic", s.Pos(), true, nil, true)))
 		}
 	}
 	switch s := s.(type) {
@@ -917,6 +920,32 @@ func (r *rewriter) isHeapWrite(s ast.Stmt) bool {
 		}
 	}
 	return false
+}
+
+// usesAtomic reports whether the statement header calls into sync/atomic (functions or
+// methods of the atomic types).
+func (r *rewriter) usesAtomic(hdr []ast.Node) bool {
+	found := false
+	for _, h := range hdr {
+		ast.Inspect(h, func(n ast.Node) bool {
+			if _, isLit := n.(*ast.FuncLit); isLit {
+				return false
+			}
+			call, ok := n.(*ast.CallExpr)
+			if !ok {
+				return true
+			}
+			sel, ok := call.Fun.(*ast.SelectorExpr)
+			if !ok {
+				return true
+			}
+			if obj, ok := r.info().Uses[sel.Sel].(*types.Func); ok && obj.Pkg() != nil && obj.Pkg().Path() == "sync/atomic" {
+				found = true
+			}
+			return true
+		})
+	}
+	return found
 }
 
 // ---- access analysis (for the conflict detector and preemption bias) --------
